@@ -328,6 +328,36 @@ func ruleBC1(c *Ctx) {
 					}
 					cur = parent
 				}
+				// an opcode held in a local that is only ever assigned opcode constants (`op := OP_A; if c { op = OP_B }`)
+				// is an emit site of each of those opcodes
+				if strings.HasPrefix(opName, "$") {
+					vo := c.objOf(call.Args[0])
+					var consts []string
+					allConst := true
+					ast.Inspect(fd.Body, func(y ast.Node) bool {
+						as, ok := y.(*ast.AssignStmt)
+						if !ok || len(as.Lhs) != len(as.Rhs) {
+							return true
+						}
+						for i, l := range as.Lhs {
+							if c.objOf(l) != vo {
+								continue
+							}
+							if ko, ok := c.objOf(as.Rhs[i]).(*types.Const); ok {
+								consts = append(consts, ko.Name())
+							} else {
+								allConst = false
+							}
+						}
+						return true
+					})
+					if allConst && len(consts) > 0 {
+						for _, k := range consts {
+							writers[k] = append(writers[k], wr{seq, tys, call.Pos(), fname})
+						}
+						return true
+					}
+				}
 				writers[opName] = append(writers[opName], wr{seq, tys, call.Pos(), fname})
 				return true
 			})
@@ -1038,6 +1068,38 @@ func ruleSibling8(c *Ctx) {
 					lazyOps[o.Name()] = true
 				}
 			}
+			// the opcode may be chosen into a local under the flag and emitted afterwards:
+			// `op := OP_A; if lazy { op = OP_B }; emitOP(op)` chooses both A and B under the flag
+			ast.Inspect(is, func(y ast.Node) bool {
+				as, ok := y.(*ast.AssignStmt)
+				if !ok || len(as.Lhs) != len(as.Rhs) {
+					return true
+				}
+				for i, l := range as.Lhs {
+					if _, isConst := c.objOf(as.Rhs[i]).(*types.Const); !isConst || !strings.HasSuffix(typeStr(c.typeOf(as.Rhs[i])), "vm.opcode") {
+						continue
+					}
+					vo := c.objOf(l)
+					if vo == nil {
+						continue
+					}
+					ast.Inspect(cis.Body, func(z ast.Node) bool {
+						as2, ok := z.(*ast.AssignStmt)
+						if !ok || len(as2.Lhs) != len(as2.Rhs) {
+							return true
+						}
+						for k, l2 := range as2.Lhs {
+							if c.objOf(l2) == vo {
+								if ko, ok := c.objOf(as2.Rhs[k]).(*types.Const); ok {
+									lazyOps[ko.Name()] = true
+								}
+							}
+						}
+						return true
+					})
+				}
+				return true
+			})
 			return true
 		})
 	}
